@@ -273,7 +273,7 @@ def group_stream(r, tier):
     for k in ("sr", "rr", "bye", "app", "sdes", "unknown", "fb", "custom", "pb", "compound", "chunk", "item", "fci"):
         cfgs = [c for c in streams.build_cfgs(k, r, "quick") if not c.get("_big")]
         r.shuffle(cfgs)
-        keep = [c for c in cfgs if c.get("_rpsi_sweep") or (c.get("_keep") and r.random() < 0.5)]
+        keep = [c for c in cfgs if c.get("_rpsi_sweep") or (c.get("_keep") and (r.random() < 0.5 or any(it["type"] == 0 for ch in c.get("chunks", []) for it in ch["items"])))]
         for cfg in cfgs[:n] + [c for c in keep if c not in cfgs[:n]]:
             base = len(ce)
             ce.append((cfg, gen.render(cfg, r, "canon"), {"style": "canon", "group_rel": 0}))
